@@ -319,6 +319,31 @@ PROPS["C09"] = dict(
                "finer grain adds nothing this one-P scheduler can see (DESIGN.md section 11)",
 )
 
+PROPS["C12"] = dict(
+    engine="netsim", level="exploration",
+    quick=dict(runs=48000, workers=16, stall_s=180),
+    thorough=dict(budget_s=900, workers=16, stall_s=300),
+    rule="one evaluation = one seeded history of 10-100 steps against one real stack on an Ethernet-like link that requires address resolution (on-link "
+         "neighbours plus a gateway for off-link destinations): UDP sends to resolved/unresolved next hops (the write blocks, is retried when its "
+         "notification channel closes), ARP replies with the current or a new link address, arriving at once, at the 1 s retry instants, just before/"
+         "after the 3 s budget, or never; ARP requests for the stack's own, a foreign and an unassigned address; IPv6 neighbour solicitations for own and "
+         "foreign targets; clock advances across the 1 s/3 s/60 s boundaries; optionally 600 announcing hosts that wrap the 512-entry cache; non-trivial "
+         "= the stack sent at least one request and one data frame after resolution; distinct = distinct event-log hash",
+    expected_probes=["arp_requests", "data_frames_after_resolution", "waiting_send_proceeded", "waiting_send_failed", "link_address_changed",
+                     "requests_for_own_address", "requests_for_other_address", "neighbour_solicitations", "cache_ring_wrapped"],
+    real=NET_REAL, stubs=NET_STUBS + PEER_STUB, assumptions=NET_ASSUME + [
+        "unconnected UDP sockets are used, so every send performs a fresh route and neighbour lookup; a TCP connection keeps the link address it "
+        "resolved at connect time for its lifetime, which the statement does not address",
+        "after a cache overflow the retry-count and spacing clauses are not asserted (an evicted unresolved entry legitimately starts a new resolution)"],
+    hang_is_violation=True,
+    level_text="seeded search over request/reply/timeout histories; a reply is emitted iff the target is one of the stack's addresses, with the interface's "
+               "link address, addressed to the requester; no IPv4 packet for a next hop is on the wire before a mapping for it was delivered, it goes to "
+               "the mapping most recently delivered and not to one older than 60 s; requests are broadcast, at least 1 s apart, at most 3 per resolution; "
+               "a waiting send proceeds or fails with no-link-address not before 3 s after the resolution's first request and is never left waiting; "
+               "evidence, not proof",
+    level_note="IPv6 is covered for the answering half (solicitation -> advertisement); the waiting/failure half is exercised over ARP",
+)
+
 PENDING = "check not built yet (work in progress; will be claimed once its simulation exists)"
 NOT_APPLICABLE = {
     "C15": "pure functions of their input (header codecs, RFC 1071 checksum): no schedule, clock, fault, I/O or second party for a simulator to control; "
